@@ -2,6 +2,7 @@ package main
 
 import (
 	"fmt"
+	"runtime"
 	"sync"
 	"time"
 )
@@ -83,5 +84,55 @@ func init() {
 			}
 			t.Check("uses_session_iff_unexpired", firstReq[n] == want, "connection #%d replaced one whose session had been granted for %v less than a second before the loss: its first request is %q, want %q (a session counts as expired 10 s before its announced expiry: 7 s is inside that margin, 13 s outside)", n, g, firstReq[n], want)
 		}
+	}})
+}
+
+func init() {
+	// C04 through the TCP reader: a header that ANNOUNCES the largest body (v2: and the largest metadata block), one further byte, then
+	// nothing — what the client allocates while it digests those few bytes is bounded by the input supplied, not by the length fields
+	register(&scenario{Name: "c04/v2-announce-and-withhold", Props: []string{"C04"}, Quick: true, Transports: []string{"tcp"}, Run: func(t *T) {
+		p := newPeer(t, t.Transport, t.Version)
+		defer p.Shutdown()
+		hostile := []byte{0x03, 0x64, 0xff, 0xff, 0xff, 0x00} // v1 push, cmd 100, body_len 0xffffff, one body byte
+		if t.Version == 2 {
+			hostile = []byte{0x03, 0x64, 0xff, 0xff, 0xff, 0xff, 0xff, 0x00} // v2 push: metadata_len 0xffff, body_len 0xffffff, one byte
+		}
+		p.onFrame = func(pc *peerConn, f frameIn) {
+			if stdReply(pc, f) {
+				return
+			}
+			if f.Typ == 1 && f.Cmd == 100 {
+				pc.Send(respFrame(f, 0, f.Body))
+			}
+		}
+		cl, err := t.NewClient(p, defaultCfg())
+		if err != nil {
+			t.Check("setup", false, "dial: %v", err)
+			return
+		}
+		defer cl.Close(nil)
+		// an honest large frame first: the read path has seen big frames, pools and buffers are warm
+		big := make([]byte, 100000)
+		pc := p.FirstConn()
+		frame := specEncode(p.version, pushFrame(50, big))
+		for off := 0; off < len(frame); off += 1000 {
+			end := off + 1000
+			if end > len(frame) {
+				end = len(frame)
+			}
+			pc.SendRaw(frame[off:end])
+		}
+		if r := t.Do(cl, "warm", 100, 20); r.Err != nil {
+			t.Check("setup", false, "request after the honest large frame: %v", r.Err)
+			return
+		}
+		runtime.GC()
+		var m0, m1 runtime.MemStats
+		runtime.ReadMemStats(&m0)
+		pc.SendRaw(hostile)
+		t.Sleep(4)
+		runtime.ReadMemStats(&m1)
+		grown := m1.TotalAlloc - m0.TotalAlloc
+		t.Check("alloc_bounded_by_input", grown < 1<<20, "the peer sent %d bytes (a v%d header announcing a body of 16777215 bytes, one further byte, then nothing): %d bytes were allocated in the process while the client digested them (want well under 1 MiB: allocation follows the bytes supplied, not the length field)", len(hostile), p.version, grown)
 	}})
 }
